@@ -73,8 +73,15 @@ class Worker:
         s = open(ct).read().replace('path = "/repo"', 'path = "%s"' % self.repo)
         open(ct, "w").write(s)
         os.makedirs(self.root)
-        for name in ("regressions", "known", "known_findings.json"):
-            os.symlink(os.path.join(ROOT, name), os.path.join(self.root, name))
+        if HARNESS_REV:
+            # regressions / known findings as of the same revision
+            p = subprocess.run("git -C %s archive %s regressions known known_findings.json | tar -x -C %s"
+                               % (ROOT, HARNESS_REV, self.root),
+                               shell=True, stdout=subprocess.PIPE, stderr=subprocess.STDOUT, text=True)
+            assert p.returncode == 0, p.stdout
+        else:
+            for name in ("regressions", "known", "known_findings.json"):
+                os.symlink(os.path.join(ROOT, name), os.path.join(self.root, name))
 
     def build(self, which):
         cmd = ["cargo", "build", "--release", "--offline", "--target-dir",
